@@ -286,12 +286,34 @@ async fn run_c19(rig: &mut Rig, id: u64, sc: &C19Scenario, cache: &mut WorldCach
         res.harness_error = Some(format!("world {:?} produced no BMCA snapshot", sc.world));
         return res;
     }
+    rig.digest = Fnv::new();
+    if !sc.prelude.is_empty() {
+        // earlier connections, served while the instance was in another state
+        let pst = cache.states[sc.prelude_snapshot as usize % cache.states.len()].clone();
+        let inst_len = instance_json_len(&pst);
+        rig.tx.send_replace(pst);
+        let mut history = String::new();
+        for step in &sc.prelude {
+            let rep = do_step(rig, step, "prelude", inst_len, &history).await;
+            rig.probe(&format!("prelude_{}", step.client.class()));
+            res.trace.push(format!("prelude: {}", rep.trace));
+            history.push_str(&format!("{}/{} ", step.client.name(), step.obs.name()));
+            if let Some(v) = rep.violation {
+                // the exporter's survival is C20's subject; reported there, noted here
+                res.violations.push(v);
+            }
+            if rep.fatal {
+                res.fatal = true;
+                res.digest = rig.digest.finish();
+                return res;
+            }
+        }
+    }
     let mut st = cache.states[sc.snapshot as usize % cache.states.len()].clone();
     states::apply_edits(&mut st, &sc.edits);
     res.state = states::state_hash(&st);
     rig.tx.send_replace(st.clone());
     let _ = sim::take_unix_records();
-    rig.digest = Fnv::new();
     let req: &[u8] = if sc.transport.long_request { REQUEST_LONG } else { REQUEST };
     let ex = rig.request(req, &sc.transport.request_chunks, sc.transport.server_write_max).await;
     let unix = sim::take_unix_records();
